@@ -49,11 +49,15 @@ func vp_C13_verify() {
 	uri := vpChoice("uri", "/_matrix/federation/v1/send/1", "/_matrix/key/v2/server?x=1", "/_matrix/federation/v1/publicRooms?",
 		"/_matrix/federation/v1/event/%24abc%2Fdef", "/_matrix/federation/v1/state/!r:x?event_id=$e&a=b%20c")
 	hasBody := method == "PUT"
-	fr := NewFederationRequest(method, "origin.example", "dest.example", uri)
+	// the origin is a valid server name (with or without port, IPv6 literal) or an invalid one (port out of range,
+	// signed port, empty port); the signature is genuine in every case - an invalid origin must be refused anyway
+	origin := spec.ServerName(vpChoice("origin", "origin.example", "origin.example:8448", "[::1]:8448", "origin.example:65536", "origin.example:+8448", "origin.example:-1", "origin.example:", "[::1]:70000"))
+	originValid := origin == "origin.example" || origin == "origin.example:8448" || origin == "[::1]:8448"
+	fr := NewFederationRequest(method, origin, "dest.example", uri)
 	if hasBody {
 		vpAssume(fr.SetContent(map[string]string{"k": vpNondetStringN("body", 2)}) == nil)
 	}
-	vpAssume(fr.Sign("origin.example", "ed25519:k1", ed25519.PrivateKey(privB)) == nil)
+	vpAssume(fr.Sign(origin, "ed25519:k1", ed25519.PrivateKey(privB)) == nil)
 	req, err := fr.HTTPRequest()
 	vpAssert("http-request-built", err == nil)
 	if err != nil {
@@ -100,7 +104,7 @@ func vp_C13_verify() {
 		vpAssume(hasBody)
 		req.Header.Set("Content-Type", "text/plain")
 	}
-	verifier := &vpReqVerifier{keys: map[spec.ServerName]ed25519.PublicKey{"origin.example": ed25519.PublicKey(pubB)}, notValid: tamper == "key-invalid"}
+	verifier := &vpReqVerifier{keys: map[spec.ServerName]ed25519.PublicKey{origin: ed25519.PublicKey(pubB)}, notValid: tamper == "key-invalid"}
 	local := spec.ServerName("dest.example")
 	var isLocal func(spec.ServerName) bool
 	switch tamper {
@@ -115,11 +119,11 @@ func vp_C13_verify() {
 	}
 	got, resp := VerifyHTTPRequest(req, time.Unix(1700000000, 0), local, isLocal, verifier)
 	accepted := got != nil && resp.Code == 200
-	vpAssert("verdict", accepted == (tamper == "none"))
+	vpAssert("verdict", accepted == (tamper == "none" && originValid))
 	if accepted {
 		vpAssert("reports-method", got.Method() == method)
 		vpAssert("reports-uri", got.RequestURI() == uri)
-		vpAssert("reports-origin", got.Origin() == "origin.example")
+		vpAssert("reports-origin", got.Origin() == origin)
 		vpAssert("reports-destination", got.Destination() == "dest.example")
 		vpAssert("reports-body", bytes.Equal(got.Content(), fr.Content()))
 	}
